@@ -495,7 +495,7 @@ package fit
 //@   props C05 C06 C07 C15
 //@   reveal tables, rvtables
 //@   timeout 60
-//@   concl knownMsgNums[m] && 0 <= i && i < rvNumField(int(m)) ==> 0 <= rvRow(int(m), i) && rvRow(int(m), i) < 256 && pfound(m, byte(rvRow(int(m), i))) && pf(m, byte(rvRow(int(m), i))).sindex == i && int(pf(m, byte(rvRow(int(m), i))).num) == rvRow(int(m), i) && byte(pf(m, byte(rvRow(int(m), i))).t)&0x1F <= 16
+//@   concl knownMsgNums[m] && 0 <= i && i < rvNumField(int(m)) ==> 0 <= rvRow(int(m), i) && rvRow(int(m), i) < 256 && pfound(m, byte(rvRow(int(m), i))) && pf(m, byte(rvRow(int(m), i))).sindex == i && int(pf(m, byte(rvRow(int(m), i))).num) == rvRow(int(m), i) && byte(pf(m, byte(rvRow(int(m), i))).t)&0x1F <= 16 && (rvClass(int(m), i) == 5 ==> tagsize(rvTypeTag(int(m), i)) == 0 && rvTypeTag(int(m), i) != typetag[string]())
 //@ lemma rows_numbered(m MesgNum)
 //@   props C05 C06 C07 C15
 //@   reveal tables
@@ -515,8 +515,11 @@ package fit
 //@@ struct fields are listed in struct order, each at most once
 //@   ensures [ordered] forall k in 0..len(r.fields) :: (forall j in 0..k :: r.fields[j].sindex < r.fields[k].sindex)
 //@   assigns nothing
-//@   locals i int, def *encodeMesgDef, fval reflect.Value
+//@   locals i int, def *encodeMesgDef, fval reflect.Value, skip bool
 //@   patterns inner
+//@@ C06/C07: an array field that holds at least one element is always listed (checked per iteration: at the head of
+//@@ the loop the previous struct field, if it is a non-empty slice, is the last field listed)
+//@   loop 0 invariant [kept-arrays] i > 0 && rvClass(rvmt(mesg), i-1) == 5 && !rvisnil(rvfieldof(mesg, i-1)) && rvlen(rvfieldof(mesg, i-1)) > 0 ==> len(def.fields) > 0 && def.fields[len(def.fields)-1].sindex == i-1
 //@   loop 0 invariant [range] 0 <= i && i <= rvNumField(rvmt(mesg))
 //@   loop 0 invariant [def] def != nil && fresh(def) && def.localMesgNum == localMesgNum && int(def.globalMesgNum) == rvmt(mesg)
 //@   loop 0 invariant [fresh-fields] fresh(def.fields) && offset(def.fields) == 0
@@ -527,7 +530,7 @@ package fit
 //@   loop 0 assigns def.fields, def.fields[..]
 //@   loop 0 decreases rvNumField(rvmt(mesg)) - i
 //@   loop 0 use sindex_row(MesgNum(rvmt(mesg)), i)
-//@   loop 1 invariant [none] 0 <= i
+//@   loop 1 invariant [none] i == 0 && skip
 //@   loop 1 assigns nothing
 //@   loop 1 decreases rvlen(fval) - i
 
